@@ -122,7 +122,9 @@ def materialise(case, d):
                 files[B.wheel_name(n, v, plat="manylinux_2_5_x86_64.manylinux_2_17_x86_64")] = B.wheel_bytes(n, v, requires=reqs, extras=extras, body="# build A\n")
                 files[B.wheel_name(n, v, plat="manylinux_2_12_x86_64")] = B.wheel_bytes(n, v, requires=reqs, extras=extras, body="# build B\n")
                 continue
-            files[B.wheel_name(n, v)] = B.wheel_bytes(n, v, requires=reqs, extras=extras)
+            files[B.wheel_name(n, v)] = B.wheel_bytes(n, v, requires=reqs, extras=extras,
+                                                      description=dict((tuple(k), t) for k, t in case.get("descriptions", [])).get((n, v)),
+                                                      meta_bytes=dict((tuple(k), t.encode("latin-1")) for k, t in case.get("latin1_headers", [])).get((n, v)))
     for n, v in case.get("broken_sdists", []):
         files["%s-%s.tar.gz" % (n.replace("-", "_"), v)] = sdist_bytes(n, v, [], analysable=False)
     B.write_findlinks(os.path.join(d, "links"), files)
